@@ -153,24 +153,26 @@ Record cstate := mkC {
   keys_some : bool;
   keys_match : bool;
   done : bool;
-  herr : bool
+  herr : bool;
+  tsup : bool
 }.
-Definition set_cache (v : bool) (s : cstate) : cstate := mkC (v) (status s) (applied s) (cs s) (locked s) (tracker s) (calling s) (own_t s) (own_p s) (x_t s) (x_p s) (share_some s) (keys_some s) (keys_match s) (done s) (herr s).
-Definition set_status (v : bstatus) (s : cstate) : cstate := mkC (cache s) (v) (applied s) (cs s) (locked s) (tracker s) (calling s) (own_t s) (own_p s) (x_t s) (x_p s) (share_some s) (keys_some s) (keys_match s) (done s) (herr s).
-Definition set_applied (v : bool) (s : cstate) : cstate := mkC (cache s) (status s) (v) (cs s) (locked s) (tracker s) (calling s) (own_t s) (own_p s) (x_t s) (x_p s) (share_some s) (keys_some s) (keys_match s) (done s) (herr s).
-Definition set_cs (v : cst) (s : cstate) : cstate := mkC (cache s) (status s) (applied s) (v) (locked s) (tracker s) (calling s) (own_t s) (own_p s) (x_t s) (x_p s) (share_some s) (keys_some s) (keys_match s) (done s) (herr s).
-Definition set_locked (v : bool) (s : cstate) : cstate := mkC (cache s) (status s) (applied s) (cs s) (v) (tracker s) (calling s) (own_t s) (own_p s) (x_t s) (x_p s) (share_some s) (keys_some s) (keys_match s) (done s) (herr s).
-Definition set_tracker (v : trk) (s : cstate) : cstate := mkC (cache s) (status s) (applied s) (cs s) (locked s) (v) (calling s) (own_t s) (own_p s) (x_t s) (x_p s) (share_some s) (keys_some s) (keys_match s) (done s) (herr s).
-Definition set_calling (v : bool) (s : cstate) : cstate := mkC (cache s) (status s) (applied s) (cs s) (locked s) (tracker s) (v) (own_t s) (own_p s) (x_t s) (x_p s) (share_some s) (keys_some s) (keys_match s) (done s) (herr s).
-Definition set_own_t (v : oshape) (s : cstate) : cstate := mkC (cache s) (status s) (applied s) (cs s) (locked s) (tracker s) (calling s) (v) (own_p s) (x_t s) (x_p s) (share_some s) (keys_some s) (keys_match s) (done s) (herr s).
-Definition set_own_p (v : oshape) (s : cstate) : cstate := mkC (cache s) (status s) (applied s) (cs s) (locked s) (tracker s) (calling s) (own_t s) (v) (x_t s) (x_p s) (share_some s) (keys_some s) (keys_match s) (done s) (herr s).
-Definition set_x_t (v : xts) (s : cstate) : cstate := mkC (cache s) (status s) (applied s) (cs s) (locked s) (tracker s) (calling s) (own_t s) (own_p s) (v) (x_p s) (share_some s) (keys_some s) (keys_match s) (done s) (herr s).
-Definition set_x_p (v : xps) (s : cstate) : cstate := mkC (cache s) (status s) (applied s) (cs s) (locked s) (tracker s) (calling s) (own_t s) (own_p s) (x_t s) (v) (share_some s) (keys_some s) (keys_match s) (done s) (herr s).
-Definition set_share_some (v : bool) (s : cstate) : cstate := mkC (cache s) (status s) (applied s) (cs s) (locked s) (tracker s) (calling s) (own_t s) (own_p s) (x_t s) (x_p s) (v) (keys_some s) (keys_match s) (done s) (herr s).
-Definition set_keys_some (v : bool) (s : cstate) : cstate := mkC (cache s) (status s) (applied s) (cs s) (locked s) (tracker s) (calling s) (own_t s) (own_p s) (x_t s) (x_p s) (share_some s) (v) (keys_match s) (done s) (herr s).
-Definition set_keys_match (v : bool) (s : cstate) : cstate := mkC (cache s) (status s) (applied s) (cs s) (locked s) (tracker s) (calling s) (own_t s) (own_p s) (x_t s) (x_p s) (share_some s) (keys_some s) (v) (done s) (herr s).
-Definition set_done (v : bool) (s : cstate) : cstate := mkC (cache s) (status s) (applied s) (cs s) (locked s) (tracker s) (calling s) (own_t s) (own_p s) (x_t s) (x_p s) (share_some s) (keys_some s) (keys_match s) (v) (herr s).
-Definition set_herr (v : bool) (s : cstate) : cstate := mkC (cache s) (status s) (applied s) (cs s) (locked s) (tracker s) (calling s) (own_t s) (own_p s) (x_t s) (x_p s) (share_some s) (keys_some s) (keys_match s) (done s) (v).
+Definition set_cache (v : bool) (s : cstate) : cstate := mkC (v) (status s) (applied s) (cs s) (locked s) (tracker s) (calling s) (own_t s) (own_p s) (x_t s) (x_p s) (share_some s) (keys_some s) (keys_match s) (done s) (herr s) (tsup s).
+Definition set_status (v : bstatus) (s : cstate) : cstate := mkC (cache s) (v) (applied s) (cs s) (locked s) (tracker s) (calling s) (own_t s) (own_p s) (x_t s) (x_p s) (share_some s) (keys_some s) (keys_match s) (done s) (herr s) (tsup s).
+Definition set_applied (v : bool) (s : cstate) : cstate := mkC (cache s) (status s) (v) (cs s) (locked s) (tracker s) (calling s) (own_t s) (own_p s) (x_t s) (x_p s) (share_some s) (keys_some s) (keys_match s) (done s) (herr s) (tsup s).
+Definition set_cs (v : cst) (s : cstate) : cstate := mkC (cache s) (status s) (applied s) (v) (locked s) (tracker s) (calling s) (own_t s) (own_p s) (x_t s) (x_p s) (share_some s) (keys_some s) (keys_match s) (done s) (herr s) (tsup s).
+Definition set_locked (v : bool) (s : cstate) : cstate := mkC (cache s) (status s) (applied s) (cs s) (v) (tracker s) (calling s) (own_t s) (own_p s) (x_t s) (x_p s) (share_some s) (keys_some s) (keys_match s) (done s) (herr s) (tsup s).
+Definition set_tracker (v : trk) (s : cstate) : cstate := mkC (cache s) (status s) (applied s) (cs s) (locked s) (v) (calling s) (own_t s) (own_p s) (x_t s) (x_p s) (share_some s) (keys_some s) (keys_match s) (done s) (herr s) (tsup s).
+Definition set_calling (v : bool) (s : cstate) : cstate := mkC (cache s) (status s) (applied s) (cs s) (locked s) (tracker s) (v) (own_t s) (own_p s) (x_t s) (x_p s) (share_some s) (keys_some s) (keys_match s) (done s) (herr s) (tsup s).
+Definition set_own_t (v : oshape) (s : cstate) : cstate := mkC (cache s) (status s) (applied s) (cs s) (locked s) (tracker s) (calling s) (v) (own_p s) (x_t s) (x_p s) (share_some s) (keys_some s) (keys_match s) (done s) (herr s) (tsup s).
+Definition set_own_p (v : oshape) (s : cstate) : cstate := mkC (cache s) (status s) (applied s) (cs s) (locked s) (tracker s) (calling s) (own_t s) (v) (x_t s) (x_p s) (share_some s) (keys_some s) (keys_match s) (done s) (herr s) (tsup s).
+Definition set_x_t (v : xts) (s : cstate) : cstate := mkC (cache s) (status s) (applied s) (cs s) (locked s) (tracker s) (calling s) (own_t s) (own_p s) (v) (x_p s) (share_some s) (keys_some s) (keys_match s) (done s) (herr s) (tsup s).
+Definition set_x_p (v : xps) (s : cstate) : cstate := mkC (cache s) (status s) (applied s) (cs s) (locked s) (tracker s) (calling s) (own_t s) (own_p s) (x_t s) (v) (share_some s) (keys_some s) (keys_match s) (done s) (herr s) (tsup s).
+Definition set_share_some (v : bool) (s : cstate) : cstate := mkC (cache s) (status s) (applied s) (cs s) (locked s) (tracker s) (calling s) (own_t s) (own_p s) (x_t s) (x_p s) (v) (keys_some s) (keys_match s) (done s) (herr s) (tsup s).
+Definition set_keys_some (v : bool) (s : cstate) : cstate := mkC (cache s) (status s) (applied s) (cs s) (locked s) (tracker s) (calling s) (own_t s) (own_p s) (x_t s) (x_p s) (share_some s) (v) (keys_match s) (done s) (herr s) (tsup s).
+Definition set_keys_match (v : bool) (s : cstate) : cstate := mkC (cache s) (status s) (applied s) (cs s) (locked s) (tracker s) (calling s) (own_t s) (own_p s) (x_t s) (x_p s) (share_some s) (keys_some s) (v) (done s) (herr s) (tsup s).
+Definition set_done (v : bool) (s : cstate) : cstate := mkC (cache s) (status s) (applied s) (cs s) (locked s) (tracker s) (calling s) (own_t s) (own_p s) (x_t s) (x_p s) (share_some s) (keys_some s) (keys_match s) (v) (herr s) (tsup s).
+Definition set_herr (v : bool) (s : cstate) : cstate := mkC (cache s) (status s) (applied s) (cs s) (locked s) (tracker s) (calling s) (own_t s) (own_p s) (x_t s) (x_p s) (share_some s) (keys_some s) (keys_match s) (done s) (v) (tsup s).
+Definition set_tsup (v : bool) (s : cstate) : cstate := mkC (cache s) (status s) (applied s) (cs s) (locked s) (tracker s) (calling s) (own_t s) (own_p s) (x_t s) (x_p s) (share_some s) (keys_some s) (keys_match s) (done s) (herr s) (v).
 
 Record gstate := mkG {
   psk_same : bool;
@@ -288,7 +290,8 @@ Definition gapply (a : dact) (k : okind) (c : cstate) (g : gstate) : gstate :=
 
 (* the session part of the hello crypto/tls writes for HelloGolang after its own loadSession *)
 Definition go_view (w : world) (c : cstate) : wireview :=
-  if sessions_off (cworld_of w) c then ([], None)
+  if sessions_off (cworld_of w) c
+  then (if tsup c then [[]] else [], None)   (* loadSession returns early; the extension is there only if a setter flagged it *)
   else match w_hit w with
        | HitNone => ([[]], None)
        | Hit12 tk _ => ([tk], None)
@@ -630,7 +633,8 @@ Definition build (cw : cworld) (load : bool) : prog unit :=
     else
       uassert (bstatus_eqb (status c) NotBuilt) P_BUILD_CALL ;;;
       (* makeClientHello: fresh key share and its private key together *)
-      put (fun c => set_status ByGo (set_share_some true (set_keys_some true (set_keys_match true c))))
+      (* ... in a new Hello object (TicketSupported unset until crypto/tls' loadSession) *)
+      put (fun c => set_tsup false (set_status ByGo (set_share_some true (set_keys_some true (set_keys_match true c)))))
   else
     uassert (bstatus_eqb (status c) ByUtls || bstatus_eqb (status c) NotBuilt) P_BUILD_CALL ;;;
     when (bstatus_eqb (status c) NotBuilt)
@@ -666,13 +670,13 @@ Definition setter (cw : cworld) (a : argk) (ov : bool -> prog unit) : prog unit 
 
 Definition stepk (cw : cworld) (k : okind) : prog unit :=
   match k with
-  | KSetCache => put (set_cache true)                                       (* u_conn.go:249-252 *)
+  | KSetCache => put (fun c => set_tsup true (set_cache true c))            (* u_conn.go:249-252: also Hello.TicketSupported = true *)
   | KBuildNoSess => build cw false
   | KBuild => build cw true
   | KHandshake => handshake cw
   | KSetTicket a => setter cw a override_ticket                             (* u_conn.go:225-233 *)
   | KSetState => setter cw AInit override_ticket                            (* u_conn.go:214-221 *)
-  | KSetPsk a => setter cw a override_psk                                   (* u_conn.go:236-246 *)
+  | KSetPsk a => setter cw a (fun i => put (set_tsup true) ;;; override_psk i)   (* u_conn.go:236-246; :244 Hello.TicketSupported = true *)
   end.
 
 Definition cstep (cw : cworld) (k : okind) (c : cstate) (g : gstate) : (cstate * gstate) * res unit :=
@@ -681,7 +685,7 @@ Definition step (w : world) (o : op) (s : st) : st * res unit :=
   runF w o (stepk (cworld_of w) (kind o)) (st_c s) (st_g s) (st_d s).
 
 Definition cinit (cache0 : bool) : cstate :=
-  mkC cache0 NotBuilt false NoSession false NeverCalled false ONone ONone X0 XPnone false false false false false.
+  mkC cache0 NotBuilt false NoSession false NeverCalled false ONone ONone X0 XPnone false false false false false false.
 Definition ginit : gstate := mkG false GOther GOther GOther GOther GOther GOther GOther GOther GOther.
 Definition dinit : dstate := mkD pristine pristine pristine pristine 0 [] None 0 None None.
 Definition init (w : world) : st := (cinit (w_cache0 w), ginit, dinit).
